@@ -326,10 +326,10 @@ Proof.
   apply N.log2_lt_pow2; [lia|].
   rewrite N.log2_lor.
   apply N.max_lub_lt.
-  - destruct (N.eq_dec (w8 x) 0) as [->|Hz]. { rewrite N.shiftl_0_l. simpl. lia. }
+  - destruct (N.eq_dec (w8 x) 0) as [->|Hz]. { rewrite N.shiftl_0_l. change (N.log2 0) with 0%N. lia. }
     rewrite N.log2_shiftl by assumption.
     assert (N.log2 (w8 x) < 8) by (apply N.log2_lt_pow2; [lia|exact Hx]). lia.
-  - destruct (N.eq_dec (be_to_N l) 0) as [->|Hz]. { simpl. lia. }
+  - destruct (N.eq_dec (be_to_N l) 0) as [->|Hz]. { change (N.log2 0) with 0%N. lia. }
     assert (N.log2 (be_to_N l) < k) by (apply N.log2_lt_pow2; [lia|exact IH]). lia.
 Qed.
 
@@ -338,8 +338,9 @@ Lemma shiftr_lor_low : forall hi lo k, lo < 2 ^ k ->
   N.shiftr (N.lor (N.shiftl hi k) lo) k = hi.
 Proof.
   intros hi lo k H. rewrite N.shiftr_lor, N.shiftr_shiftl_l, N.sub_diag, N.shiftl_0_r by lia.
+  destruct (N.eq_dec lo 0) as [->|]. { now rewrite N.shiftr_0_l, N.lor_0_r. }
   rewrite (N.shiftr_eq_0 lo k). { apply N.lor_0_r. }
-  destruct (N.eq_dec lo 0) as [->|]; [reflexivity|]. apply N.log2_lt_pow2; lia.
+  apply N.log2_lt_pow2; lia.
 Qed.
 
 Lemma land_lor_low : forall hi lo k, lo < 2 ^ k ->
@@ -451,7 +452,8 @@ Proof.
   - simpl in H. inversion H; subst. repeat split; constructor.
   - cbn [split_blocks] in H.
     destruct (split_blocks n (skipn 16 l)) as [bs' tl'] eqn:E.
-    inversion H; subst; clear H.
+    assert (H1 : bs = firstn 16 l :: bs') by congruence.
+    assert (H2 : tl = tl') by congruence. clear H. subst bs tl'.
     apply IHn in E; [|rewrite skipn_length; lia].
     destruct E as (F & L & C). repeat split.
     + constructor; [|assumption]. unfold len16. rewrite firstn_length. lia.
@@ -494,7 +496,7 @@ Proof.
   rewrite app_length, concat_len16 by assumption.
   replace ((16 * length bs + length tl) / 16) with (length bs).
   - now apply split_blocks_concat.
-  - symmetry. apply Nat.div_unique with (r := length tl); lia.
+  - apply Nat.div_unique with (r := length tl); lia.
 Qed.
 
 Lemma Forall_bytes_ok_concat : forall (bs : list bytes),
@@ -515,19 +517,18 @@ Qed.
 Lemma last_app_singleton : forall (A : Type) (l : list A) x d, last (l ++ [x]) d = x.
 Proof. intros. apply last_last. Qed.
 
-Lemma map_last_length : forall f l, length (map_last f l) = length l.
-Proof.
-  intros f. fix IH 1. intros [|x [|y t]]; [reflexivity|reflexivity|].
-  change (map_last f (x :: y :: t)) with (x :: map_last f (y :: t)).
-  cbn [length]. f_equal. apply IH.
-Qed.
-
 Lemma map_last_snoc : forall f l x, map_last f (l ++ [x]) = l ++ [f x].
 Proof.
   intros f. induction l as [|y l IH]; intros x; [reflexivity|].
   cbn [app]. destruct (l ++ [x]) as [|z t] eqn:E. { destruct l; discriminate. }
   change (map_last f (y :: z :: t)) with (y :: map_last f (z :: t)).
   rewrite <- E, IH. reflexivity.
+Qed.
+
+Lemma map_last_length : forall f l, length (map_last f l) = length l.
+Proof.
+  intros f l. induction l as [|x l _] using rev_ind; [reflexivity|].
+  rewrite map_last_snoc, !app_length. reflexivity.
 Qed.
 
 Lemma list_snoc_split : forall (A : Type) (l : list A) d, l <> [] ->
